@@ -630,7 +630,10 @@ impl TcpConnection {
 
                 match (protocol, substream_id) {
                     (Some(protocol), Some(substream_id)) => {
-                        self.protocol_set
+                        // The protocol may have shut down. That must not end the connection task
+                        // (without anybody being told): the other protocols keep using it.
+                        let _ = self
+                            .protocol_set
                             .report_substream_open_failure(protocol.clone(), substream_id, error)
                             .await
                             .inspect_err(|error| {
@@ -641,7 +644,7 @@ impl TcpConnection {
                                     ?error,
                                     "failed to register substream open failure to protocol"
                                 );
-                            })?;
+                            });
                     }
                     _ => {}
                 }
@@ -662,7 +665,11 @@ impl TcpConnection {
                     self.protocol_set.protocol_codec(&protocol),
                 );
 
-                self.protocol_set
+                // The protocol may have shut down, in which case the substream is dropped. That
+                // must not end the connection task (without anybody being told): the other
+                // protocols keep using the connection.
+                let _ = self
+                    .protocol_set
                     .report_substream_open(
                         self.peer,
                         protocol.clone(),
@@ -680,7 +687,7 @@ impl TcpConnection {
                             ?error,
                             "failed to register opened substream to protocol",
                         );
-                    })?;
+                    });
             }
         }
 
